@@ -22,6 +22,7 @@ import (
 	"go/ast"
 	"go/token"
 	"os"
+	"os/exec"
 	"regexp"
 	"strconv"
 	"strings"
@@ -123,6 +124,11 @@ func loadUnixConsts(repo string) {
 		return
 	}
 	cache := os.Getenv("GOMODCACHE")
+	if cache == "" {
+		if out, err := exec.Command("go", "env", "GOMODCACHE").Output(); err == nil {
+			cache = strings.TrimSpace(string(out))
+		}
+	}
 	if cache == "" {
 		home, _ := os.UserHomeDir()
 		cache = home + "/go/pkg/mod"
